@@ -33,6 +33,9 @@ def random_image_input(r, tier):
     f = r.choice(files)
     inp = {"kind": "image", "file": f, "sym": r.randrange(8), "pad": r.choice([0, 0, 3, 17]),
            "mirror_y": r.random() < 0.3, "reduce_amount": False}
+    if r.random() < 0.2:
+        inp["rescale"] = r.choice([[2.0, 2.0], [0.5, 0.25], [3.0, 1.0]])
+        inp["offset"] = r.choice([[0, 0], [100, 50], [-20, 700]])
     # windows of a shipped image: cheaper and many more distinct tissues
     if tier == "quick" or r.random() < 0.7:
         inp["window"] = [round(r.random(), 3), round(r.random(), 3), r.choice([140, 180, 240, 320])]
@@ -173,9 +176,13 @@ def random_raster_input(r, tier):
     spec["keep"] = None if r.random() < 0.6 else spec["keep"]
     if spec["keep"] is None and not TS.spec_ok(spec):
         spec["keep"] = [0]
-    return {"kind": "raster", "spec": spec, "px": r.choice([28, 36, 48]), "curv": r.choice([0.0, 0.0, 0.1]),
-            "pad": r.choice([0, 2, 9]), "mirror_y": r.random() < 0.3,
-            "reduce_amount": r.random() < 0.15}
+    inp = {"kind": "raster", "spec": spec, "px": r.choice([28, 36, 48]), "curv": r.choice([0.0, 0.0, 0.1]),
+           "pad": r.choice([0, 2, 9]), "mirror_y": r.random() < 0.3,
+           "reduce_amount": r.random() < 0.15}
+    if r.random() < 0.2:
+        inp["rescale"] = r.choice([[2.0, 2.0], [0.5, 0.25], [3.0, 1.0]])
+        inp["offset"] = r.choice([[0, 0], [100, 50], [-20, 700]])
+    return inp
 
 
 def raster_array(inp):
